@@ -214,6 +214,7 @@ type Layout struct {
 	EmptyPad    bool   `json:"empty_pad"`    // a blank inside empty containers: `[ ]`, `{ }`
 	EmptyDash   bool   `json:"empty_dash"`   // rules without a note are followed by a dash with nothing behind it: `{..} -`
 	BlockInAnn  bool   `json:"block_in_ann"` // a ### block comment between the rules of an annotation and what follows them
+	NoteBelow   bool   `json:"note_below"`   // an annotation that is only a note stands on a line of its own below its one-line element (last member / item, or the root)
 }
 
 // DefaultLayout is the plain style used by the repository's own examples.
@@ -245,6 +246,7 @@ func RandLayout(rng *rand.Rand) Layout {
 		EmptyPad:    rng.IntN(4) == 0,
 		EmptyDash:   rng.IntN(6) == 0,
 		BlockInAnn:  rng.IntN(8) == 0,
+		NoteBelow:   rng.IntN(6) == 0,
 	}
 	return l
 }
@@ -443,6 +445,22 @@ func (p *printer) annotation(n *Node, level int) {
 	}
 }
 
+// noteBelow tells whether the annotation of the one-line element n goes on the
+// next line: only a note, nothing follows the element on its line, and the
+// element has a line of its own (or is the root).
+func (p *printer) noteBelow(n *Node, level int, tail string, ownLine bool) bool {
+	return p.l.NoteBelow && tail == "" && (ownLine || level == 0) && n.Note != "" && !n.HasRules && len(n.Rules) == 0
+}
+
+// annotationAfter prints the annotation of a one-line element behind it, or on the next line.
+func (p *printer) annotationAfter(n *Node, level int, tail string, ownLine bool) {
+	if p.noteBelow(n, level, tail, ownLine) {
+		p.nl()
+		p.indent(level)
+	}
+	p.annotation(n, level)
+}
+
 func (p *printer) key(n *Node) {
 	if n.KeyLit == "" {
 		return
@@ -473,7 +491,7 @@ func (p *printer) element(n *Node, level int, tail string, ownLine bool) {
 				open += " "
 			}
 			p.sb.WriteString(open + close + tail)
-			p.annotation(n, level)
+			p.annotationAfter(n, level, tail, ownLine)
 			return
 		}
 		if p.l.Compact && !n.HasAnnotations() {
@@ -518,13 +536,13 @@ func (p *printer) element(n *Node, level int, tail string, ownLine bool) {
 	case KRef:
 		p.sb.WriteString(strings.Join(n.Refs, []string{" | ", "|", "| ", " |"}[p.l.PipeStyle%4]))
 		p.sb.WriteString(tail)
-		p.annotation(n, level)
+		p.annotationAfter(n, level, tail, ownLine)
 		if !(p.hasAnn(n) && p.l.Multi) && ownLine {
 			p.lineEndComment()
 		}
 	default:
 		p.sb.WriteString(n.Lit + tail)
-		p.annotation(n, level)
+		p.annotationAfter(n, level, tail, ownLine)
 		if !(p.hasAnn(n) && p.l.Multi) && ownLine {
 			p.lineEndComment()
 		}
